@@ -500,6 +500,20 @@ impl Builder {
         Ok(self)
     }
 
+    /// Verification hook: runs `Transports::bind` on the transports configured so far (IP
+    /// sockets, see `verif_hooks::transports::ip::set_loopback_binds`) without building an
+    /// endpoint; `endpoint` only lends parts of the relay actor configuration.
+    #[cfg(all(iroh_verif, not(wasm_browser)))]
+    pub fn verif_bind_transports(
+        &self,
+        endpoint: &Endpoint,
+    ) -> std::io::Result<crate::verif_hooks::transports::SendHarness> {
+        crate::verif_hooks::transports::SendHarness::from_transport_configs(
+            &self.transports,
+            endpoint,
+        )
+    }
+
     /// Removes all IP based transports.
     #[cfg(not(wasm_browser))]
     pub fn clear_ip_transports(mut self) -> Self {
